@@ -28,7 +28,11 @@ def random_module(rnd, slot):
     for _ in range(n_items):
         r = rnd.random()
         if slot in ("t", "t2"):
-            if r < 0.6:
+            if r < 0.15:
+                # a test whose body uses names it does not declare (undeclared-fixture findings are index state)
+                items.append(item("testb", name="test_%d" % len(items), deps=rnd.sample(NAMES, rnd.randint(0, 1)),
+                                  ind=rnd.sample(NAMES, rnd.randint(1, 2))))
+            elif r < 0.6:
                 params = rnd.sample(NAMES, rnd.randint(0, 2))
                 marks = rnd.sample(NAMES, 1) if rnd.random() < 0.2 else []
                 items.append(item("test", name="test_%d" % len(items), deps=params, marks=marks))
@@ -200,7 +204,15 @@ def project(snap, cur):
     fdefs = {f: sorted(snap["fdefs"].get(UNI.paths[f], [])) for f in FILES}
     usages = {f: [decode_use(cur, u) for u in snap["usages"].get(UNI.paths[f], [])] for f in FILES}
     ubf = {n: {f: [decode_use(cur, u) for u in snap["ubf"].get(n, []) if u["file"] == UNI.paths[f]] for f in FILES} for n in NAMES}
-    return {"defs": defs, "fdefs": fdefs, "usages": usages, "ubf": ubf, "version": snap["version"]}
+    undecl = {}
+    for f in FILES:
+        r = cur.get(f)
+        out = []
+        for u in snap.get("undecl", {}).get(UNI.paths[f], []):
+            idx = r.line_item.get(u["fn_line"]) if r else None
+            out.append({"idx": idx if idx is not None else 0 - u["fn_line"], "j": u["line"] - u["fn_line"], "name": u["name"]})
+        undecl[f] = out
+    return {"defs": defs, "fdefs": fdefs, "usages": usages, "ubf": ubf, "undecl": undecl, "version": snap["version"]}
 
 
 def tlc_validate(trace_path, timeout=1800):
